@@ -467,8 +467,41 @@ def run(ctx, rep) -> None:
     # ---- R4 ----------------------------------------------------------------------------------------
     cw = prog.func("stabilize.handlers.complete_workflow", "CompleteWorkflowHandler._handle_with_retry.on_execution").node
     t = norm(cw)
-    sel = "running_stages = [s for s in execution.top_level_stages() if s.status == WorkflowStatus.RUNNING]" in t and "if status != WorkflowStatus.SUCCEEDED:" in t
-    rep.check(sel, "C05.R4", "RUNNING top-level stages are selected for every non-SUCCEEDED outcome", "if status != SUCCEEDED: running_stages = [top-level RUNNING]", "src/stabilize/handlers/complete_workflow.py", cw.lineno, disc="select")
+    # the stages that get CancelStage when the workflow ends unsuccessfully: the collection the CancelStage loop iterates over is a
+    # status filter over the top-level stages that lets RUNNING and the parked statuses (SUSPENDED, PAUSED) through - a parked stage
+    # left out stays parked for ever inside the finished workflow - and it is filled for every non-SUCCEEDED outcome
+    from ..statuspred import comprehension_filter as _cf4, status_set as _ss4
+    from ..dom import conditions_at as _ca4
+    sel, sel_detail, sel_line = False, "the loop pushing CancelStage was not found", cw.lineno
+    for lp in [x for x in ast.walk(cw) if isinstance(x, ast.For) and any(isinstance(c_, ast.Call) and isinstance(c_.func, ast.Name) and c_.func.id == "CancelStage" for c_ in ast.walk(x))]:
+        it = lp.iter
+        defs = [a for a in ast.walk(cw) if isinstance(a, ast.Assign) and isinstance(it, ast.Name) and norm(a.targets[0]) == it.id and not (isinstance(a.value, (ast.List, ast.Tuple)) and not a.value.elts)]
+        if len(defs) != 1:
+            sel_detail = f"`{norm(it)}` has {len(defs)} non-empty definitions"
+            continue
+        cf = _cf4(defs[0].value)
+        if cf is None:
+            sel_detail = f"`{norm(defs[0].value)[:80]}` is not a filtered comprehension"
+            continue
+        g, flt = cf
+        W = frozenset(T.members) if flt is None else _ss4(flt, f"{norm(g.target)}.status", T)
+        dom_ok = norm(g.iter) in ("execution.top_level_stages()", "execution.stages")
+        need = {"RUNNING", "SUSPENDED", "PAUSED"}
+        under = ("status == WorkflowStatus.SUCCEEDED", False) in _ca4(cw, defs[0])
+        sel_line = defs[0].lineno
+        if W is None:
+            sel_detail = f"filter `{norm(flt)}` is not a status predicate"
+        elif not dom_ok:
+            sel_detail = f"iterates {norm(g.iter)}"
+        elif not need <= W:
+            sel_detail = f"cancels stages in {sorted(W)}: {sorted(need - W)} stage(s) of a workflow that failed / was canceled get no CancelStage and stay parked for ever inside the finished workflow"
+        elif W & T.sets["COMPLETED_STATUSES"]:
+            sel_detail = f"cancels stages in {sorted(W)}: completed stages would be sent CancelStage"
+        elif not under:
+            sel_detail = "not under `status != SUCCEEDED`"
+        else:
+            sel, sel_detail = True, f"if status != SUCCEEDED: CancelStage for top-level stages in {sorted(W)}"
+    rep.check(sel, "C05.R4", "every live top-level stage (RUNNING or parked) is selected for every non-SUCCEEDED outcome", sel_detail, "src/stabilize/handlers/complete_workflow.py", sel_line, disc="select")
     ok4 = True
     site4 = ("src/stabilize/handlers/complete_workflow.py", 0)
     n4 = 0
